@@ -7,6 +7,7 @@
 
 mod case;
 mod exec;
+mod faults;
 mod fsutil;
 mod gen;
 mod hooks;
@@ -26,7 +27,7 @@ use std::collections::{BTreeMap, BTreeSet};
 use std::path::{Path, PathBuf};
 use std::sync::Mutex;
 
-static LAST_PANIC: Mutex<Option<(String, String)>> = Mutex::new(None);
+pub static LAST_PANIC: Mutex<Option<(String, String)>> = Mutex::new(None);
 
 fn install_panic_hook() {
     std::panic::set_hook(Box::new(|info| {
@@ -65,7 +66,15 @@ pub fn run_one(case: &Case, tag: &str) -> props::Outcome {
     *LAST_PANIC.lock().unwrap() = None;
     let c = case.clone();
     let d = dir.clone();
-    let r = std::panic::catch_unwind(std::panic::AssertUnwindSafe(move || props::run_case(&c, d)));
+    // every case runs on a fresh OS thread: std's RandomState keys are thread-local and seeded
+    // lazily from getrandom (interposed, reset above), so hash iteration order inside fjall
+    // is a function of the case seed and not of what ran earlier in this process
+    let r = std::thread::Builder::new()
+        .name("fjsim:case".into())
+        .stack_size(32 << 20)
+        .spawn(move || props::run_case(&c, d))
+        .expect("spawn case thread")
+        .join();
     let out = match r {
         Ok(o) => o,
         Err(_) => {
